@@ -36,6 +36,11 @@ class ThreadRunner(BaseRunner):
     def _monitor_payload(self, payload):
         try:
             result = payload()
+        except StopIteration as e:
+            # asyncio refuses to store a StopIteration in a Future (TypeError);
+            # wrap it the way Python does for coroutines so the failure is not lost
+            failure = RuntimeError("payload raised StopIteration")
+            failure.__cause__ = e
         except BaseException as e:  # noqa: B036
             failure = e
         else:
